@@ -103,29 +103,47 @@ Theorem C18_skeletons_preserve_context_partial : forall t m c n s e,
 Proof. exact skeletons_preserve_context. Qed.
 Print Assumptions C18_skeletons_preserve_context_partial.
 
+(* "complex stays complex" (and single stays single, double stays double) as an EQUALITY: every output that is not real-valued
+   by design - errors, normalisation weights, singular values, |weights| of cp_flip_sign, everything of the non-negative
+   families, abs-valued random tensors - has exactly the dtype t of the data, for all four contexts (complex64 / complex128
+   included), every family and option set, every mask dtype and every number of sweeps.  The table real_by_design is read on the
+   normalised configuration (options a family does not have do not count). *)
+Theorem C18_outputs_exact_context : forall t m c n s e,
+  In t ctxs -> valid_cfg c -> In (s, e) (p_outs (skeleton c)) -> float_out (s, e) = true ->
+  real_by_design (norm_cfg c) s = false ->
+  eval (mkenv t m) (run (mkenv t m) (skeleton c) n) e = t.
+Proof. exact outputs_exact_context. Qed.
+Print Assumptions C18_outputs_exact_context.
+Example C18_complex_factors_nonvacuous :
+  valid_cfg (with_mask (cfg0 FParafac)) /\ In C64 ctxs /\ In ("factors", F_) (p_outs (skeleton (with_mask (cfg0 FParafac)))) /\
+  float_out ("factors", F_) = true /\ real_by_design (norm_cfg (with_mask (cfg0 FParafac))) "factors" = false /\
+  real_by_design (norm_cfg (cfg0 FNNParafac)) "factors" = true /\ real_by_design (norm_cfg (cfg0 FTucker)) "errors" = true /\
+  out_of (mkenv C64 B) (with_mask (cfg0 FParafac)) 5 "factors" = Some C64 /\ out_of (mkenv C128 C128) (cfg0 FSvd) 0 "out1" = Some F64.
+Proof. unfold valid_cfg. repeat split; try (vm_compute; reflexivity); vm_compute; tauto. Qed.
+
 (* robust_pca casts the mask into the data's context: clean for every mask dtype (in both variants) *)
 Theorem C18_robust_pca_any_mask : forall mc t m n s e, In t ctxs -> In (s, e) (p_outs (skeleton_v mc (with_mask (cfg0 FRobustPca)))) ->
   strongP t (eval (mkenv t m) (run (mkenv t m) (skeleton_v mc (with_mask (cfg0 FRobustPca))) n) e) = true.
 Proof. exact robust_pca_any_mask. Qed.
 Print Assumptions C18_robust_pca_any_mask.
 
-(* refutations: WITHOUT the cast (mc = false, the code before the repair 45ef7df) a boolean / integer mask turns float32
+(* refutations about OLD code: WITHOUT the cast (mc = false, the code before the repair 45ef7df) a boolean / integer mask turns float32
    data into float64 results - why the cast is necessary *)
-Theorem C18_parafac_bool_mask_refuted : exists n, out_of_v false (mkenv F32 B) (with_mask (cfg0 FParafac)) n "factors" = Some F64.
-Proof. exact parafac_bool_mask_refuted. Qed.
-Print Assumptions C18_parafac_bool_mask_refuted.
-Theorem C18_parafac_int_mask_refuted : exists n, out_of_v false (mkenv F32 I64) (with_mask (cfg0 FParafac)) n "factors" = Some F64.
-Proof. exact parafac_int_mask_refuted. Qed.
-Print Assumptions C18_parafac_int_mask_refuted.
-Theorem C18_tucker_bool_mask_refuted : exists n, out_of_v false (mkenv F32 B) (with_mask (cfg0 FTucker)) n "core" = Some F64.
-Proof. exact tucker_bool_mask_refuted. Qed.
-Print Assumptions C18_tucker_bool_mask_refuted.
-Theorem C18_nn_parafac_bool_mask_refuted : exists n, out_of_v false (mkenv F32 B) (with_mask (cfg0 FNNParafac)) n "factors" = Some F64.
-Proof. exact nn_parafac_bool_mask_refuted. Qed.
-Print Assumptions C18_nn_parafac_bool_mask_refuted.
-Theorem C18_svd_bool_mask_refuted : exists n, out_of_v false (mkenv F32 B) (with_mask (cfg0 FSvd)) n "out0" = Some F64.
-Proof. exact svd_bool_mask_refuted. Qed.
-Print Assumptions C18_svd_bool_mask_refuted.
+Theorem C18_parafac_bool_mask_before_45ef7df_refuted : exists n, out_of_v false (mkenv F32 B) (with_mask (cfg0 FParafac)) n "factors" = Some F64.
+Proof. exact parafac_bool_mask_before_45ef7df_refuted. Qed.
+Print Assumptions C18_parafac_bool_mask_before_45ef7df_refuted.
+Theorem C18_parafac_int_mask_before_45ef7df_refuted : exists n, out_of_v false (mkenv F32 I64) (with_mask (cfg0 FParafac)) n "factors" = Some F64.
+Proof. exact parafac_int_mask_before_45ef7df_refuted. Qed.
+Print Assumptions C18_parafac_int_mask_before_45ef7df_refuted.
+Theorem C18_tucker_bool_mask_before_45ef7df_refuted : exists n, out_of_v false (mkenv F32 B) (with_mask (cfg0 FTucker)) n "core" = Some F64.
+Proof. exact tucker_bool_mask_before_45ef7df_refuted. Qed.
+Print Assumptions C18_tucker_bool_mask_before_45ef7df_refuted.
+Theorem C18_nn_parafac_bool_mask_before_45ef7df_refuted : exists n, out_of_v false (mkenv F32 B) (with_mask (cfg0 FNNParafac)) n "factors" = Some F64.
+Proof. exact nn_parafac_bool_mask_before_45ef7df_refuted. Qed.
+Print Assumptions C18_nn_parafac_bool_mask_before_45ef7df_refuted.
+Theorem C18_svd_bool_mask_before_45ef7df_refuted : exists n, out_of_v false (mkenv F32 B) (with_mask (cfg0 FSvd)) n "out0" = Some F64.
+Proof. exact svd_bool_mask_before_45ef7df_refuted. Qed.
+Print Assumptions C18_svd_bool_mask_before_45ef7df_refuted.
 (* the exception fallback of active_set_nnls: float64 before the repair c906acd (context-less restart vector), float32 now *)
 Theorem C18_active_set_fallback_before_fix_refuted :
   exists n, out_of_prog (mkenv F32 F32) (active_set_prog_before_c906acd active_fallback) n "out0" = Some F64.
